@@ -2,7 +2,8 @@
 (* C32 -- WorkerPool: exclusive ownership, idle bound, clean reuse.
 
    Code-shaped model of vgi_rpc/pool.py (WorkerPool._borrow / _return_worker / _evict_oldest_locked /
-   _reap_expired / _reaper_loop / close, _PooledTransport.close) for one command key.  One action = one real
+   _reap_expired / _reaper_loop / close, _PooledTransport.close); borrower b uses command key ((b-1) % nKeys)+1
+   (idle workers are kept per key, max_idle caps them globally).  One action = one real
    thread running from one park point of the deterministic scheduler to the next.  Park points: every acquire of
    WorkerPool._lock, the SubprocessTransport constructor ("spawn"), the borrower's code inside `with
    pool.connect(...)` ("use"), the reaper's Event.wait ("wait"), close()'s reaper.join ("join").  The pool lock is
@@ -30,6 +31,7 @@
 EXTENDS Naturals, Sequences, FiniteSets, TLC
 
 CONSTANTS NB,              \* borrower threads 1..NB
+          KeysSet,         \* numbers of distinct worker commands explored (chosen in Init)
           MaxRounds,       \* upper bound on borrows per borrower thread
           RoundsSet,       \* borrows per borrower thread explored (chosen in Init)
           MaxIdleSet,      \* max_idle values explored (chosen in Init)
@@ -44,30 +46,33 @@ Borrowers == 1..NB
 MaxW == NB * MaxRounds     \* every borrow spawns at most one worker
 Workers == 1..MaxW
 
-VARIABLES maxIdle, nRounds,        \* configuration of this run (fixed in Init)
+VARIABLES maxIdle, nRounds, nKeys, \* configuration of this run (fixed in Init)
           bpc, round, held, det,   \* borrower: pc, rounds completed, worker held (0 = none), stream_abandoned computed
           wst, alive, dirty, retAt, nW,   \* worker: none|held|idle|closed, process alive, connection off-boundary, returned_at
+          wkey,                    \* worker: the command key it was spawned for (0 = not spawned)
           idle,                    \* idle workers, oldest first
           active, closed, stop,    \* _active, _closed, _stop_event
           rpc, rnow,               \* reaper pc and the `now` it read before taking the lock
           cpc,                     \* closer pc
           clock, deaths,
           badHandout, reused       \* ghost: a worker was handed out dead or off-boundary; an idle worker was handed out
-vars == <<maxIdle, nRounds, bpc, round, held, det, wst, alive, dirty, retAt, nW, idle, active, closed, stop, rpc, rnow, cpc,
+vars == <<maxIdle, nRounds, nKeys, bpc, round, held, det, wst, alive, dirty, retAt, nW, wkey, idle, active, closed, stop, rpc, rnow, cpc,
           clock, deaths, badHandout, reused>>
 
-Init == /\ maxIdle \in MaxIdleSet /\ nRounds \in RoundsSet
+Init == /\ maxIdle \in MaxIdleSet /\ nRounds \in RoundsSet /\ nKeys \in KeysSet
         /\ bpc = [b \in Borrowers |-> "start"] /\ round = [b \in Borrowers |-> 0] /\ held = [b \in Borrowers |-> 0]
         /\ det = [b \in Borrowers |-> FALSE]
         /\ wst = [w \in Workers |-> "none"] /\ alive = [w \in Workers |-> FALSE] /\ dirty = [w \in Workers |-> FALSE]
-        /\ retAt = [w \in Workers |-> 0] /\ nW = 0 /\ idle = <<>>
+        /\ retAt = [w \in Workers |-> 0] /\ nW = 0 /\ idle = <<>> /\ wkey = [w \in Workers |-> 0]
         /\ active = 0 /\ closed = FALSE /\ stop = FALSE
         /\ rpc \in ReaperInit /\ rnow = 0
         /\ cpc \in CloserInit
         /\ clock = 0 /\ deaths = 0 /\ badHandout = FALSE /\ reused = FALSE
 
-Last(s) == s[Len(s)]
-Front(s) == SubSeq(s, 1, Len(s) - 1)
+Key(b) == ((b - 1) % nKeys) + 1
+Mine(b) == {i \in 1..Len(idle) : wkey[idle[i]] = Key(b)}          \* positions of idle workers of b's command
+MaxOf(S) == CHOOSE x \in S : \A y \in S : y <= x
+Without(s, i) == SubSeq(s, 1, i - 1) \o SubSeq(s, i + 1, Len(s))
 DirtyKind(k) == k \in {"abandon", "nonlast"}
 Detected(k, lastOnly) == k = "abandon" \/ (k = "nonlast" /\ ~lastOnly)
 \* where a borrower thread goes after finishing a round: the next connect() reads _closed in the same step
@@ -76,30 +81,32 @@ AfterRound(b) == IF round[b] + 1 >= nRounds THEN "done" ELSE IF closed THEN "rai
 \* ---------------------------------------------------------------- borrowers
 BStart(b) == /\ bpc[b] = "start"
              /\ bpc' = [bpc EXCEPT ![b] = IF closed THEN "raised" ELSE "borrow"]
-             /\ UNCHANGED <<maxIdle, nRounds, round, held, det, wst, alive, dirty, retAt, nW, idle, active, closed, stop, rpc,
+             /\ UNCHANGED <<maxIdle, nRounds, nKeys, round, held, det, wst, alive, dirty, retAt, nW, wkey, idle, active, closed, stop, rpc,
                             rnow, cpc, clock, deaths, badHandout, reused>>
 \* _borrow, first critical section: LIFO pop + health check
 BBorrow(b) == /\ bpc[b] = "borrow" /\ active' = active + 1
-              /\ IF idle = <<>>
+              /\ IF Mine(b) = {}
                  THEN /\ bpc' = [bpc EXCEPT ![b] = "spawn"] /\ UNCHANGED <<held, wst, idle, badHandout, reused>>
-                 ELSE LET w == Last(idle) IN
-                      /\ idle' = Front(idle)
+                 ELSE LET i == MaxOf(Mine(b))            \* LIFO within the key's deque
+                          w == idle[i] IN
+                      /\ idle' = Without(idle, i)
                       /\ IF alive[w]
                          THEN /\ held' = [held EXCEPT ![b] = w] /\ wst' = [wst EXCEPT ![w] = "held"]
                               /\ bpc' = [bpc EXCEPT ![b] = "use"]
                               /\ badHandout' = (badHandout \/ dirty[w]) /\ reused' = TRUE
                          ELSE /\ wst' = [wst EXCEPT ![w] = "closed"] /\ bpc' = [bpc EXCEPT ![b] = "spawn"]
                               /\ UNCHANGED <<held, badHandout, reused>>
-              /\ UNCHANGED <<maxIdle, nRounds, round, det, alive, dirty, retAt, nW, closed, stop, rpc, rnow, cpc, clock, deaths>>
+              /\ UNCHANGED <<maxIdle, nRounds, nKeys, round, det, alive, dirty, retAt, nW, wkey, closed, stop, rpc, rnow, cpc, clock, deaths>>
 \* SubprocessTransport(...)  (outside the lock)
 BSpawn(b) == /\ bpc[b] = "spawn" /\ nW < MaxW
              /\ nW' = nW + 1 /\ wst' = [wst EXCEPT ![nW + 1] = "held"] /\ alive' = [alive EXCEPT ![nW + 1] = TRUE]
              /\ held' = [held EXCEPT ![b] = nW + 1] /\ bpc' = [bpc EXCEPT ![b] = "spawned"]
-             /\ UNCHANGED <<maxIdle, nRounds, round, det, dirty, retAt, idle, active, closed, stop, rpc, rnow, cpc, clock, deaths,
+             /\ wkey' = [wkey EXCEPT ![nW + 1] = Key(b)]
+             /\ UNCHANGED <<maxIdle, nRounds, nKeys, round, det, dirty, retAt, idle, active, closed, stop, rpc, rnow, cpc, clock, deaths,
                             badHandout, reused>>
 \* with self._lock: self._spawns += 1
 BSpawned(b) == /\ bpc[b] = "spawned" /\ bpc' = [bpc EXCEPT ![b] = "use"]
-               /\ UNCHANGED <<maxIdle, nRounds, round, held, det, wst, alive, dirty, retAt, nW, idle, active, closed, stop, rpc,
+               /\ UNCHANGED <<maxIdle, nRounds, nKeys, round, held, det, wst, alive, dirty, retAt, nW, wkey, idle, active, closed, stop, rpc,
                               rnow, cpc, clock, deaths, badHandout, reused>>
 \* the borrower's script; then context exit -> _PooledTransport.close(): poll() and stream_abandoned, outside the lock.
 \* On a connection that was handed out off-boundary (or on a dead worker) the borrower's first call fails and it leaves.
@@ -111,14 +118,14 @@ BUseD(b, k, lastOnly) ==
                  /\ det' = [det EXCEPT ![b] = usable /\ Detected(k, lastOnly)]
                  /\ bpc' = [bpc EXCEPT ![b] = IF ~alive[w] THEN "retdead"
                                                ELSE IF usable /\ Detected(k, lastOnly) THEN "retaband" ELSE "ret"]
-              /\ UNCHANGED <<maxIdle, nRounds, round, held, wst, alive, retAt, nW, idle, active, closed, stop, rpc, rnow, cpc, clock,
+              /\ UNCHANGED <<maxIdle, nRounds, nKeys, round, held, wst, alive, retAt, nW, wkey, idle, active, closed, stop, rpc, rnow, cpc, clock,
                              deaths, badHandout, reused>>
 \* _return_worker, dead / abandoned branch: counters under the lock, transport.close() after it
 BRetDiscard(b) == /\ bpc[b] \in {"retdead", "retaband"}
                   /\ active' = active - 1
                   /\ wst' = [wst EXCEPT ![held[b]] = "closed"] /\ held' = [held EXCEPT ![b] = 0]
                   /\ round' = [round EXCEPT ![b] = round[b] + 1] /\ bpc' = [bpc EXCEPT ![b] = AfterRound(b)]
-                  /\ UNCHANGED <<maxIdle, nRounds, det, alive, dirty, retAt, nW, idle, closed, stop, rpc, rnow, cpc, clock, deaths,
+                  /\ UNCHANGED <<maxIdle, nRounds, nKeys, det, alive, dirty, retAt, nW, wkey, idle, closed, stop, rpc, rnow, cpc, clock, deaths,
                                  badHandout, reused>>
 \* _return_worker, main critical section: closed -> discard; at capacity -> evict the oldest; append
 BRetD(b, keepZero) ==
@@ -134,7 +141,7 @@ BRetD(b, keepZero) ==
                         /\ idle' = Append(idle, w) /\ retAt' = [retAt EXCEPT ![w] = clock]
            /\ held' = [held EXCEPT ![b] = 0]
            /\ round' = [round EXCEPT ![b] = round[b] + 1] /\ bpc' = [bpc EXCEPT ![b] = AfterRound(b)]
-           /\ UNCHANGED <<maxIdle, nRounds, det, alive, dirty, nW, closed, stop, rpc, rnow, cpc, clock, deaths, badHandout, reused>>
+           /\ UNCHANGED <<maxIdle, nRounds, nKeys, det, alive, dirty, nW, wkey, closed, stop, rpc, rnow, cpc, clock, deaths, badHandout, reused>>
 
 BUse(b, k) == BUseD(b, k, Dev_LastSessionOnly)
 BRet(b) == BRetD(b, Dev_MaxIdleZeroKeeps)
@@ -142,7 +149,7 @@ BRet(b) == BRetD(b, Dev_MaxIdleZeroKeeps)
 \* ---------------------------------------------------------------- reaper
 RWake == /\ rpc = "wait"
          /\ IF stop THEN rpc' = "done" /\ UNCHANGED rnow ELSE rpc' = "reap" /\ rnow' = clock
-         /\ UNCHANGED <<maxIdle, nRounds, bpc, round, held, det, wst, alive, dirty, retAt, nW, idle, active, closed, stop, cpc, clock,
+         /\ UNCHANGED <<maxIdle, nRounds, nKeys, bpc, round, held, det, wst, alive, dirty, retAt, nW, wkey, idle, active, closed, stop, cpc, clock,
                         deaths, badHandout, reused>>
 Expired(w) == rnow >= retAt[w] + 1
 \* entries are appended in time order, so the expired ones form a prefix
@@ -150,31 +157,31 @@ NExp == Cardinality({i \in 1..Len(idle) : \A j \in 1..i : Expired(idle[j])})
 RReap == /\ rpc = "reap" /\ rpc' = "wait"
          /\ idle' = SubSeq(idle, NExp + 1, Len(idle))
          /\ wst' = [w \in Workers |-> IF \E i \in 1..NExp : idle[i] = w THEN "closed" ELSE wst[w]]
-         /\ UNCHANGED <<maxIdle, nRounds, bpc, round, held, det, alive, dirty, retAt, nW, active, closed, stop, rnow, cpc, clock,
+         /\ UNCHANGED <<maxIdle, nRounds, nKeys, bpc, round, held, det, alive, dirty, retAt, nW, wkey, active, closed, stop, rnow, cpc, clock,
                         deaths, badHandout, reused>>
 
 \* ---------------------------------------------------------------- close()
 CStart == /\ cpc = "start" /\ closed' = TRUE /\ stop' = TRUE /\ cpc' = "join"
-          /\ UNCHANGED <<maxIdle, nRounds, bpc, round, held, det, wst, alive, dirty, retAt, nW, idle, active, rpc, rnow, clock, deaths,
+          /\ UNCHANGED <<maxIdle, nRounds, nKeys, bpc, round, held, det, wst, alive, dirty, retAt, nW, wkey, idle, active, rpc, rnow, clock, deaths,
                          badHandout, reused>>
 \* reaper.join(timeout=5) returns: the reaper ended, or the timeout elapsed
 CJoin == /\ cpc = "join" /\ cpc' = "drain"
-         /\ UNCHANGED <<maxIdle, nRounds, bpc, round, held, det, wst, alive, dirty, retAt, nW, idle, active, closed, stop, rpc, rnow,
+         /\ UNCHANGED <<maxIdle, nRounds, nKeys, bpc, round, held, det, wst, alive, dirty, retAt, nW, wkey, idle, active, closed, stop, rpc, rnow,
                         clock, deaths, badHandout, reused>>
 CDrain == /\ cpc = "drain" /\ cpc' = "done" /\ idle' = <<>>
           /\ wst' = [w \in Workers |-> IF \E i \in 1..Len(idle) : idle[i] = w THEN "closed" ELSE wst[w]]
-          /\ UNCHANGED <<maxIdle, nRounds, bpc, round, held, det, alive, dirty, retAt, nW, active, closed, stop, rpc, rnow, clock,
+          /\ UNCHANGED <<maxIdle, nRounds, nKeys, bpc, round, held, det, alive, dirty, retAt, nW, wkey, active, closed, stop, rpc, rnow, clock,
                          deaths, badHandout, reused>>
 
 \* ---------------------------------------------------------------- environment
 Tick == /\ clock < MaxClock /\ clock' = clock + 1
-        /\ UNCHANGED <<maxIdle, nRounds, bpc, round, held, det, wst, alive, dirty, retAt, nW, idle, active, closed, stop, rpc, rnow,
+        /\ UNCHANGED <<maxIdle, nRounds, nKeys, bpc, round, held, det, wst, alive, dirty, retAt, nW, wkey, idle, active, closed, stop, rpc, rnow,
                        cpc, deaths, badHandout, reused>>
 \* an idle worker's process dies; a held one only before its borrower starts using it
 Die(w) == /\ deaths < MaxDeaths /\ alive[w]
           /\ wst[w] = "idle" \/ (wst[w] = "held" /\ \E b \in Borrowers : held[b] = w /\ bpc[b] = "use")
           /\ alive' = [alive EXCEPT ![w] = FALSE] /\ deaths' = deaths + 1
-          /\ UNCHANGED <<maxIdle, nRounds, bpc, round, held, det, wst, dirty, retAt, nW, idle, active, closed, stop, rpc, rnow, cpc,
+          /\ UNCHANGED <<maxIdle, nRounds, nKeys, bpc, round, held, det, wst, dirty, retAt, nW, wkey, idle, active, closed, stop, rpc, rnow, cpc,
                          clock, badHandout, reused>>
 
 Next == \/ \E b \in Borrowers : BStart(b) \/ BBorrow(b) \/ BSpawn(b) \/ BSpawned(b) \/ BRetDiscard(b) \/ BRet(b)
